@@ -22,7 +22,8 @@ VARIABLES tid, l, O, X, cnt
 vars == <<tid, l, O, X, cnt>>
 
 Clauses == {"C13_Reverse", "C13_Stack", "C13_Named", "C13_Delete", "C13_Ctx", "C13_Keep",
-            "C13_Pivot", "C13_Matrix"}
+            "C13_Pivot", "C13_Matrix", "C13_Angle"}
+FP == INSTANCE FixedPoint
 
 Abs(x) == IF x < 0 THEN -x ELSE x
 Close(a, b, tol) == \A i \in 1..3 : Abs(a[i] - b[i]) <= tol
@@ -69,6 +70,21 @@ NextX(e) ==
 \* ------------------------------------------------------------------ clauses
 Tol(M) == IF M.exact THEN 1 ELSE 3
 
+\* A rotation by an ARBITRARY angle (float runs), judged where it can be read off directly: while the map in force has no
+\* linear part yet (only translations / pivots so far), the observed images of the basis vectors are the rotation itself.
+\* u is the in-plane basis vector, v its image under the right-handed quarter turn RotQ(axis): u |-> cos(t) u + sin(t) v.
+LinCol(obs, i) == [k \in 1..3 |-> obs[i + 1][k] - obs[1][k]]
+IdLin(obs) == \A i \in 1..3 : \A k \in 1..3 : Abs(LinCol(obs, i)[k] - (IF i = k THEN 10000 ELSE 0)) <= 1
+AxisUV(axis) == CASE axis = "z" -> <<1, 2>> [] axis = "x" -> <<2, 3>> [] OTHER -> <<3, 1>>
+AngleOK(e, obs) ==
+  LET uv == AxisUV(e.a.axis)
+      col == LinCol(obs, uv[1])
+      got == FP!Atan2(col[uv[2]], col[uv[1]])                \* 10^-5 rad
+      d0 == (got - e.a.ang5) % FP!TWOPI5
+      d == IF d0 > FP!PI5 THEN FP!TWOPI5 - d0 ELSE d0
+      w == 6 - uv[1] - uv[2]                                   \* the axis itself stays put
+  IN d <= 60 /\ \A k \in 1..3 : Abs(LinCol(obs, w)[k] - (IF k = w THEN 10000 ELSE 0)) <= 2
+
 Holds(c, e, M) ==
   LET obs == Qs(e) IN
   CASE c = "C13_Reverse" ->
@@ -91,6 +107,8 @@ Holds(c, e, M) ==
          (e.call \in PivotedCalls /\ e.out = "ok" /\ e.pv.has) => Close(e.pv.y, e.pv.P, Tol(M) + 1)
     [] c = "C13_Matrix" ->
          M.exact => \A i \in DOMAIN e.probes : Close(e.probes[i].q, ApplyM(NextX(e).cur.m, e.probes[i].p), 0)
+    [] c = "C13_Angle" ->
+         (e.call = "rotate" /\ e.out = "ok" /\ IdLin(O.obs)) => AngleOK(e, obs)
 
 Ante(c, e, M) ==
   CASE c = "C13_Stack" -> e.call = "restore"
@@ -100,6 +118,7 @@ Ante(c, e, M) ==
     [] c = "C13_Keep" -> e.call \in KeepCalls
     [] c = "C13_Pivot" -> e.call \in PivotedCalls /\ e.out = "ok" /\ e.pv.has
     [] c = "C13_Matrix" -> M.exact /\ e.call \in ChainCalls
+    [] c = "C13_Angle" -> e.call = "rotate" /\ e.out = "ok" /\ IdLin(O.obs)
     [] OTHER -> TRUE
 
 Init ==
